@@ -14,7 +14,7 @@ if [ "$what" = all ] || [ "$what" = ocaml ]; then
      && ocamlfind ocamlopt -O3 -o driver stubs.c model.cmx driver.ml -cclib -lm 2>/dev/null)
 fi
 if [ "$what" = all ] || [ "$what" = harness ]; then
-  cp /repo/Cargo.lock harness/Cargo.lock
+  cp /repo/Cargo.lock harness/Cargo.lock; export CARGO_TARGET_DIR="$PWD/harness/target"
   (cd harness && cargo build --offline 2>&1 | tail -3)
 fi
 echo "setup done"
